@@ -10,11 +10,13 @@ import Gts.Model.OpsIO
 import Gts.Model.OpsMem
 import Gts.Model.OpsCli
 import Gts.Model.OpsReg
+import Gts.Model.OpsGb
+import Gts.Model.OpsLocator
 import Gts.Model.OpsRepair
 namespace Gts
 
 def evalOp (op : String) (args : List Sexp) : Option String :=
-  [evalCore, evalOrigin, evalNuc, evalCache, evalFeat, evalIO, evalMem, evalCli, evalReg, evalRepair].firstM fun h => h op args
+  [evalCore, evalOrigin, evalNuc, evalCache, evalFeat, evalIO, evalMem, evalCli, evalReg, evalGb, evalLocator, evalRepair].firstM fun h => h op args
 
 def evalLine (line : String) : String :=
   match Sexp.parseLine line with
